@@ -319,12 +319,16 @@ func (fs *FS) Rename(oldname, newname string) error {
 		return err
 	}
 
+	newFile, err := fs.getFile(newname)
+	if err == nil && newFile.Mode().IsDir() {
+		// like os.Rename, never replace a directory
+		return &hackpadfs.LinkError{Op: "rename", Old: oldname, New: newname, Err: hackpadfs.ErrExist}
+	}
 	if oldname == "." || strings.HasPrefix(newname, oldname+"/") {
 		// a directory cannot be moved into itself, and the root cannot be moved at all
 		return &hackpadfs.LinkError{Op: "rename", Old: oldname, New: newname, Err: hackpadfs.ErrInvalid}
 	}
-	newFile, err := fs.getFile(newname)
-	if err == nil && !newFile.Mode().IsDir() {
+	if err == nil {
 		// like os.Rename, a directory cannot replace a non-directory
 		return &hackpadfs.LinkError{Op: "rename", Old: oldname, New: newname, Err: hackpadfs.ErrNotDir}
 	}
